@@ -86,11 +86,21 @@ def generate(rng, tier, index):
     iso = tier_e == "iso" and m.get("mu_tier") in (None, "iso")
     srcs = []
     for i in range(int(rng.integers(0, 3))):
-        k = specgen.choice(rng, ["dipole", "uniform_plane"]) if iso else "dipole"
-        s = specgen.rand_dipole(rng, f"s{i}", shape, inner, T) if k == "dipole" else specgen.rand_plane_source(rng, f"s{i}", shape, inner, T, kind=k)
+        k = specgen.choice(rng, ["dipole", "uniform_plane", "gaussian_plane", "tfsf_region", "mode"]) if iso else "dipole"
+        if k == "dipole":
+            s = specgen.rand_dipole(rng, f"s{i}", shape, inner, T)
+        elif k == "tfsf_region":
+            s = specgen.rand_tfsf_region(rng, f"s{i}", shape, inner, T, faces=faces)
+        elif k == "mode":
+            s = specgen.rand_mode_source(rng, f"s{i}", shape, inner, T)
+        else:
+            s = specgen.rand_plane_source(rng, f"s{i}", shape, inner, T, kind=k)
         srcs.append(s if s is not None else specgen.rand_dipole(rng, f"s{i}", shape, inner, T))
     spec["sources"] = srcs
     spec["init_seed"] = int(rng.integers(0, 2**31))
+    # one scene in three with sources starts from zero fields, so that a defect in how a source is undone in the reverse
+    # sweep is measured against the source-made field instead of O(1) random fields
+    spec["init_scale"] = 0.0 if (srcs and rng.uniform() < 0.35) else 1.0
     spec["ops"] = [
         {"op": "stepwise", "reset_fields": bool(rng.uniform() < 0.5)},
         {"op": "full_backward", "reset_fields": bool(rng.uniform() < 0.5), "start": int(rng.integers(0, T))},
@@ -138,7 +148,7 @@ def execute(spec):
     tol = 1e-9 if spec.get("dtype", "float64") == "float64" else 5e-4
     T = scn.T
     mask = sc.interior_mask(spec)[None]
-    E0, H0 = sc.random_fields(scn, spec["init_seed"], scale=1.0, interior_only=True)
+    E0, H0 = sc.random_fields(scn, spec["init_seed"], scale=float(spec.get("init_scale", 1.0)), interior_only=True)
     arrays = scn.arrays.aset("fields->E", E0).aset("fields->H", H0)
     st = dr.Stepper(scn, record_detectors=False, record_boundaries=True)
     state = st.state0(arrays)
@@ -191,6 +201,9 @@ def execute(spec):
     stats["sim_time_fs"] = stats["sim_steps"] * scn.dt * 1e15
     m = spec["materials"]
     stats["probe_full_tensor"] = int(m.get("eps_tier") == "full")
+    stats["probe_zero_initial_fields"] = int(spec.get("init_scale", 1.0) == 0.0)
+    for s_ in spec.get("sources", []):
+        stats["probe_source_" + s_["kind"]] = stats.get("probe_source_" + s_["kind"], 0) + 1
     stats["probe_float32"] = int(spec.get("dtype") == "float32")
     stats["probe_dtype_module"] = int(bool(spec["gradient"]["recorder"]))
     stats["probe_pml_faces"] = sum(1 for f in spec["faces"].values() if f["kind"] == "pml")
